@@ -837,3 +837,90 @@ Lemma ec_der_examples :
   /\ parse_sec1_der (Err "no answer") (enc_seq (enc_int 1 ++ enc_octets d ++ ctx_enc 0 oid ++ [5; 0])) = Err "asn1"
   /\ parse_sec1_der (Err "no answer") (enc_seq (enc_int 1 ++ enc_octets d ++ [160; 0])) = Err "asn1".
 Proof. vm_compute. repeat (match goal with |- _ /\ _ => split end); reflexivity. Qed.
+
+(* ------------------------------------------------------------------ *)
+(* what the other readers accept (for ALL bytes)                       *)
+(* ------------------------------------------------------------------ *)
+Ltac step_bigint B c r Hb E D :=
+  match goal with
+  | H : context [bigint ?x] |- _ =>
+      destruct (bigint x) as [[c r]| |] eqn:B; try discriminate; cbn [bind fst snd] in H;
+      apply bigint_inv in B as (E & D); [|exact Hb]; rewrite E in Hb; apply bytes_ok_tlv in Hb as [_ Hb]
+  end.
+Ltac step_int B c r Hb E D L :=
+  match goal with
+  | H : context [int_field ?x] |- _ =>
+      destruct (int_field x) as [[c r]| |] eqn:B; try discriminate; cbn [bind fst snd] in H;
+      apply int_field_inv in B as (E & D & L); [|exact Hb]; rewrite E in Hb; apply bytes_ok_tlv in Hb as [_ Hb]
+  end.
+
+Lemma dsa_parameters_der_sound : forall der i, bytes_ok der = true ->
+  parse_dsa_parameters_der der = Ok i ->
+  exists cp cq cg extra rest,
+    der = enc_seq (tlv_enc 2 false cp ++ tlv_enc 2 false cq ++ tlv_enc 2 false cg ++ extra) ++ rest
+    /\ is_ok (der_int_dec cp) = true /\ is_ok (der_int_dec cq) = true /\ is_ok (der_int_dec cg) = true
+    /\ i = Info (bs "DSA parameters") (dsa_parameter_attrs (twos cp)) [].
+Proof.
+  intros der i Hok H. unfold parse_dsa_parameters_der, dsa_parameters_of_der, dsa_parameters_fields in H.
+  destruct (seq der) as [[body rest]| |] eqn:S; try discriminate. cbn [bind fst snd] in H.
+  unfold seq in S. apply req_field_inv in S as (E & _); [|exact Hok].
+  rewrite E in Hok. apply bytes_ok_tlv in Hok as [Hb _].
+  step_bigint B1 cp r1 Hb E1 D1. subst body.
+  step_bigint B2 cq r2 Hb E2 D2. subst r1.
+  step_bigint B3 cg r3 Hb E3 D3. subst r2.
+  cbn [opt_of parse_dsa_parameters] in H. inversion H; subst i.
+  exists cp, cq, cg, r3, rest. unfold enc_seq. repeat split; assumption.
+Qed.
+
+Lemma dsa_private_der_sound : forall der i, bytes_ok der = true ->
+  parse_dsa_private_der der = Ok i ->
+  exists cv cp cq cg cy cx extra rest,
+    der = enc_seq (tlv_enc 2 false cv ++ tlv_enc 2 false cp ++ tlv_enc 2 false cq ++ tlv_enc 2 false cg
+                   ++ tlv_enc 2 false cy ++ tlv_enc 2 false cx ++ extra) ++ rest
+    /\ is_ok (der_int_dec cv) = true /\ (length cv <= 8)%nat
+    /\ forallb (fun c => is_ok (der_int_dec c)) [cp; cq; cg; cy; cx] = true
+    /\ i = Info (bs "DSA private key") (dsa_attrs (twos cp)) [].
+Proof.
+  intros der i Hok H. unfold parse_dsa_private_der, dsa_private_of_der, dsa_private_fields in H.
+  destruct (seq der) as [[body rest]| |] eqn:S; try discriminate. cbn [bind fst snd] in H.
+  unfold seq in S. apply req_field_inv in S as (E & _); [|exact Hok].
+  rewrite E in Hok. apply bytes_ok_tlv in Hok as [Hb _].
+  step_int B0 cv r0 Hb E0 D0 L0. subst body.
+  step_bigint B1 cp r1 Hb E1 D1. subst r0.
+  step_bigint B2 cq r2 Hb E2 D2. subst r1.
+  step_bigint B3 cg r3 Hb E3 D3. subst r2.
+  step_bigint B4 cy r4 Hb E4 D4. subst r3.
+  step_bigint B5 cx r5 Hb E5 D5. subst r4.
+  cbn [opt_of parse_dsa_private] in H. inversion H; subst i.
+  exists cv, cp, cq, cg, cy, cx, r5, rest. unfold enc_seq. cbn [forallb].
+  rewrite D1, D2, D3, D4, D5. repeat split; assumption.
+Qed.
+
+Lemma pkcs1_private_der_sound : forall der i, bytes_ok der = true ->
+  parse_pkcs1_private_der der = Ok i ->
+  exists cv cn ce cd cp cq tail rest,
+    der = enc_seq (tlv_enc 2 false cv ++ tlv_enc 2 false cn ++ tlv_enc 2 false ce ++ tlv_enc 2 false cd
+                   ++ tlv_enc 2 false cp ++ tlv_enc 2 false cq ++ tail) ++ rest
+    /\ is_ok (der_int_dec cv) = true /\ (length cv <= 8)%nat
+    /\ is_ok (der_int_dec ce) = true /\ (length ce <= 8)%nat
+    /\ forallb (fun c => is_ok (der_int_dec c)) [cn; cd; cp; cq] = true
+    /\ i = Info (bs "PKCS#1 private key") (pkcs1_attrs (twos cn)) [].
+Proof.
+  intros der i Hok H. unfold parse_pkcs1_private_der, pkcs1_private_of_der, pkcs1_private_fields in H.
+  destruct (seq der) as [[body rest]| |] eqn:S; try discriminate. cbn [bind fst snd] in H.
+  unfold seq in S. apply req_field_inv in S as (E & _); [|exact Hok].
+  rewrite E in Hok. apply bytes_ok_tlv in Hok as [Hb _].
+  step_int B0 cv r0 Hb E0 D0 L0. subst body.
+  step_bigint B1 cn r1 Hb E1 D1. subst r0.
+  step_int B2 ce r2 Hb E2 D2 L2. subst r1.
+  step_bigint B3 cd r3 Hb E3 D3. subst r2.
+  step_bigint B4 cp r4 Hb E4 D4. subst r3.
+  step_bigint B5 cq r5 Hb E5 D5. subst r4.
+  destruct (bigint_field true r5) as [[o1 t1]| |]; try discriminate. cbn [bind fst snd] in H.
+  destruct (bigint_field true t1) as [[o2 t2]| |]; try discriminate. cbn [bind fst snd] in H.
+  destruct (bigint_field true t2) as [[o3 t3]| |]; try discriminate. cbn [bind fst snd] in H.
+  destruct (additional_primes t3); try discriminate. cbn [bind parse_pkcs1_private] in H.
+  inversion H; subst i.
+  exists cv, cn, ce, cd, cp, cq, r5, rest. unfold enc_seq. cbn [forallb].
+  rewrite D1, D3, D4, D5. repeat split; assumption.
+Qed.
